@@ -37,7 +37,7 @@ pub fn run(cx: &mut Ctx) {
             }
         }
     });
-    let n = cx.a.n(3_000, 150_000);
+    let n = cx.a.n(8_000, 150_000);
     for _ in 0..n {
         cx.case("history", |c| fsx::run_history(c, Focus::Listing));
     }
